@@ -51,10 +51,12 @@ UN = {
 }
 
 
-def _bin_case(cls, aliased):
+def _bin_case(cls, aliased, second=None):
+    """`second`: class of the second operand's leaf (Var by default; Param / Float: what the forward sweep put into val_dict - for the symbolic sweep the leaf itself,
+    whose value may change later - is what the adjoint must be built from, not the number the leaf holds when the derivative is taken)"""
     def build(cx):
         o1 = _leaf(cx, "a")
-        o2 = o1 if aliased else _leaf(cx, "b")
+        o2 = o1 if aliased else _leaf(cx, "b", second or E.Var)
         op = cx.obj(cls, _operand1=o1, _operand2=o2)
         v1, v2 = cx.real("v1"), (cx.real("v2") if not aliased else None)
         v2 = v1 if aliased else v2
@@ -78,7 +80,7 @@ def _bin_case(cls, aliased):
                     ("adjoint_of_operand2_grows_by_der_times_partial", Rr(dd[o2]) == cx.t(d2) + DER * p2),
                     ("node_adjoint_and_values_untouched", z3.And(Rr(dd[op]) == DER, Rr(val[o1]) == V1))]
         cx.ensure(post)
-    return Case("%s,aliased=%s" % (cls.__name__, aliased), build, crosscheck=False)
+    return Case("%s,aliased=%s%s" % (cls.__name__, aliased, "" if second is None else ",second_operand=%s" % second.__name__), build, crosscheck=False)
 
 
 def _pow_case(exponent_kind):
@@ -285,7 +287,8 @@ def _refcount_case(kind, present, direction):
 
 _ref_cases = [_refcount_case(k, p, "inc") for k in KINDS for p in (False, True)] + [_refcount_case(k, True, "dec") for k in KINDS]
 
-_bin_cases = [_bin_case(c, a) for c in BIN for a in (False, True)] + [_pow_case(k) for k in ("float", "param", "var", "expr")]
+_bin_cases = [_bin_case(c, a) for c in BIN for a in (False, True)] + [_bin_case(c, False, k) for c in BIN for k in (E.Param, E.Float)] + \
+             [_pow_case(k) for k in ("float", "param", "var", "expr")]
 _un_cases = [_un_case(c) for c in UN] + [_ifelse_case()]
 _fold_cases = [_fold_case(o, l, r) for o in _FOLD for (l, r) in (("var", "native"), ("native", "var"), ("float", "native"), ("native", "float"), ("var", "float"), ("float", "var"), ("var", "var"), ("float", "float"))]
 
